@@ -155,7 +155,7 @@ theorem comments_off (O : Oracle) (M : List Cps) (hO : AtFaithful O) (s : SSheet
 
 `@charset "utf-8"; @IMPORT UrL( 'a.css') print ; @namespace p "urn:x"; a , /*c*/ b { COLOR /*c*/ : red ! IMPORTANT ;
 ; /*k*/ top : 0 1 }  @x y ; @Media print /*c*/ { a,b{…} /*in*/ } @font-face { … } @page cover/*m*/:first { top : 0 1 ;
-@Top-left /*c*/ { top : 0 1 } }` -/
+@Top-left /*c*/ { top : 0 1 } }` (the pseudo-page name written `F\\irst`) -/
 
 /-- the hypotheses of `parse_render` are satisfiable: a sheet with every rule kind, gaps with comments, upper case
 and simple escapes, both quote styles -/
@@ -169,12 +169,19 @@ example : projSheet Ex2.O Ex2.M (parseSheet Ex2.O Ex2.M (render Ex2.sheet)) = Ex
 /-- a test (evaluation of the model on the rendered example), not a theorem: the parse has 8 rules -/
 example : (parseSheet Ex2.O Ex2.M (render Ex2.sheet)).length = 8 := by decide +kernel
 
-/-! ## known findings, shown on the model -/
+/-! ## the page selector (repaired: `fix: @page pseudo-page names :first, :left and :right are recognised in any
+letter case`; the pseudo-page name now has a spelling mask in `SPageSel`, so `parse_render` covers it) -/
 
-/-- C02-page-pseudo-case: the pseudo-page ident is kept as written (`csspagerule.py:170-186` compares it with
-`'first'` … without normalising), so `@page :FIRST` and `@page :first` do not give the same DOM -/
-example : pageSelector [colonTok, identTok (cps "FIRST")] ≠ pageSelector [colonTok, identTok (cps "first")] := by
+/-- the page selector alone: every spelling of `first` / `left` / `right` (case, simple escapes), white space and
+comments around the selector, comments between page name and `:` give the abstract selector -/
+theorem page_selector_recovered (g0 : Gap) (sel : SPageSel) (g1 : Gap) (h : PageSelWF sel) :
+    pageSelector (Gap.toks g0 ++ (sel.toks ++ Gap.toks g1)) = some ⟨sel.name, sel.pseudo⟩ :=
+  pageSelector_render g0 sel g1 h
+
+example : pageSelector [colonTok, identTok (cps "FI\\rST")] = pageSelector [colonTok, identTok (cps "first")] := by
   decide +kernel
+
+/-! ## known finding, shown on the model -/
 
 /-- C02-margin-box-space-dropped: the declarations of a margin box are parsed without their white space
 (`marginrule.py:150-172`), so the value that reaches the value parser is not the value that was written -/
